@@ -234,7 +234,7 @@ func init() {
 						}
 					}
 					if class == "normal" || class == "nonl" {
-						for _, ln := range []string{"short", "long"} {
+						for _, ln := range []string{"short", "long", "dotdot"} {
 							if !yield(C09Case{Format: f, Subset: full(n), Class: class, Link: ln}) {
 								return
 							}
@@ -247,6 +247,12 @@ func init() {
 						// quick: every subset configured in the override block over base decoys (the other slots keep the base script)
 						for _, s := range subs {
 							if !yield(C09Case{Format: f, Subset: s, Class: class, Where: "both"}) {
+								return
+							}
+						}
+						// the same written with merge keys after the explicit keys of the override's script blocks
+						for _, s := range subs {
+							if !yield(C09Case{Format: f, Subset: s, Class: class, Where: "merge"}) {
 								return
 							}
 						}
@@ -388,11 +394,21 @@ func checkC09(env *engine.Env, ci any) engine.Outcome {
 				target = filepath.Dir(p) + strings.Repeat("/.", 120) + "/" + filepath.Base(p)
 			}
 			os.Remove(lp)
-			if err := os.Symlink(target, lp); err == nil {
+			if c.Link == "dotdot" {
+				// <root>/dd-hooks -> scripts/inner; the configured path <root>/dd-hooks/../<name> is <root>/scripts/<name>
+				// for the operating system, and <root>/<name> (where a decoy lies) after lexical cleaning
+				os.MkdirAll(filepath.Join(filepath.Dir(p), "inner"), 0o755)
+				hooks := filepath.Join(t.Root, "dd-hooks")
+				if _, err := os.Lstat(hooks); err != nil {
+					os.Symlink(filepath.Join("scripts", "inner"), hooks)
+				}
+				os.WriteFile(filepath.Join(t.Root, filepath.Base(p)), scriptBytes("decoy", key), 0o755)
+				p = hooks + "/../" + filepath.Base(p)
+			} else if err := os.Symlink(target, lp); err == nil {
 				p = lp
 			}
 		}
-		if c.Rel {
+		if c.Rel && c.Link != "dotdot" {
 			if r, err := filepath.Rel(t.Root, p); err == nil {
 				return r
 			}
@@ -403,7 +419,7 @@ func checkC09(env *engine.Env, ci any) engine.Outcome {
 	var names []string
 	for i, s := range slots {
 		in := c.Subset&(1<<uint(i)) != 0
-		if c.Where == "both" {
+		if c.Where == "both" || c.Where == "merge" {
 			setPath(d, s.Key, pathOf("decoy", s.Key))
 			want[s.Target] = scriptBytes("decoy", s.Key)
 		}
@@ -411,7 +427,7 @@ func checkC09(env *engine.Env, ci any) engine.Outcome {
 			continue
 		}
 		key := s.Key
-		if c.Where == "override" || c.Where == "both" {
+		if c.Where == "override" || c.Where == "both" || c.Where == "merge" {
 			key = "overrides." + c.Format + "." + s.Key
 		}
 		setPath(d, key, pathOf(c.Class, s.Key))
@@ -472,7 +488,11 @@ func checkC09(env *engine.Env, ci any) engine.Outcome {
 		out.Violations = append(out.Violations, engine.Violation{Sig: sig,
 			Detail: fmt.Sprintf("format=%s class=%s primed-with=%q umask=%#o where=%q company=%v relative-paths=%v configured slots=%v\n", c.Format, c.Class, c.Prime, c.Umask, c.Where, c.Company, c.Rel, names) + fmt.Sprintf(format, a...)})
 	}
-	data, err := buildYAML(fixture.Doc(d).YAML(), c.Format)
+	docText := fixture.Doc(d).YAML()
+	if c.Where == "merge" {
+		docText = mergeSpelling(docText, c.Format)
+	}
+	data, err := buildYAML(docText, c.Format)
 	if err != nil {
 		viol("scripts:build-error:"+c.Format, "valid configuration, packaging failed: %v", err)
 		return out
@@ -540,4 +560,69 @@ func trunc(s string, n int) string {
 		return s[:n]
 	}
 	return s
+}
+
+// mergeSpelling rewrites a rendered document so that the script blocks inside overrides.<format> end with a merge key
+// referring to the corresponding base block ("scripts: &common ..." / "<<: *common" written AFTER the explicit keys):
+// explicit keys win over merged ones wherever the merge key stands. The overrides block is moved to the end (an
+// anchor precedes its aliases).
+func mergeSpelling(text, format string) string {
+	var blocks [][]string
+	for _, l := range strings.SplitAfter(text, "\n") {
+		if l == "" {
+			continue
+		}
+		if l[0] != ' ' && l[0] != '-' || len(blocks) == 0 {
+			blocks = append(blocks, nil)
+		}
+		blocks[len(blocks)-1] = append(blocks[len(blocks)-1], l)
+	}
+	var rest, over [][]string
+	haveCommon, haveFmt := false, false
+	for _, b := range blocks {
+		switch {
+		case strings.HasPrefix(b[0], "overrides:"):
+			over = append(over, b)
+			continue
+		case strings.HasPrefix(b[0], "scripts:"):
+			b[0] = "scripts: &commonscripts\n"
+			haveCommon = true
+		case strings.HasPrefix(b[0], format+":"):
+			for i, l := range b {
+				if l == "  scripts:\n" {
+					b[i] = "  scripts: &fmtscripts\n"
+					haveFmt = true
+				}
+			}
+		}
+		rest = append(rest, b)
+	}
+	insertAfterChildren := func(b []string, head string, indent int, line string) []string {
+		for i, l := range b {
+			if l != head {
+				continue
+			}
+			j := i + 1
+			for j < len(b) && len(b[j]) > indent && strings.HasPrefix(b[j], strings.Repeat(" ", indent)) {
+				j++
+			}
+			out := append(append(append([]string{}, b[:j]...), line), b[j:]...)
+			return out
+		}
+		return b
+	}
+	var sb strings.Builder
+	for _, b := range rest {
+		sb.WriteString(strings.Join(b, ""))
+	}
+	for _, b := range over {
+		if haveFmt {
+			b = insertAfterChildren(b, "      scripts:\n", 8, "        <<: *fmtscripts\n")
+		}
+		if haveCommon {
+			b = insertAfterChildren(b, "    scripts:\n", 6, "      <<: *commonscripts\n")
+		}
+		sb.WriteString(strings.Join(b, ""))
+	}
+	return sb.String()
 }
